@@ -17,7 +17,7 @@ def gen_gtis(g, nmax=6):
     s0 = t - int(g.integers(0, 3)) * 2 ** 15
     gtis = []
     for _ in range(n):
-        t += int(g.integers(0, 30)) * 2 ** int(g.integers(8, 20))
+        t += 0 if g.uniform() < 0.15 else int(g.integers(0, 30)) * 2 ** int(g.integers(8, 20))      # abutting intervals (stop = next start) are legal
         length = int(g.integers(1, 60)) * 2 ** int(g.integers(8, 20))
         gtis.append((t, t + length))
         t += length
